@@ -79,7 +79,7 @@ for _v in (0x00, 0x10, 0x20, 0x30, 0xff):
 for _g in range(16):
     _lo, _hi = _g * 16, _g * 16 + 15
     add("bds_%02x_%02x" % (_lo, _hi), "adsb_deku", F + "obl_bds", args="0x%02x, 0x%02x" % (_lo, _hi),
-        props=["C10", "C04"] + (["C08"] if _lo == 0x20 else []), unwind=10, tier="thorough",
+        props=["C10", "C04"] + (["C08"] if _lo == 0x20 else []), unwind=20, tier="thorough",
         domain="MB first byte 0x%02x..=0x%02x x all 2^48 remaining MB bits x 2^24 trailer" % (_lo, _hi),
         functions=["bds::BDS::from_reader_with_ctx (real derive expansion)"], timeout=3000, kani_flags=FAST)
 
